@@ -131,6 +131,11 @@ class DepDB:
             self.db = json.load(open(self.path))
         except Exception:
             self.db = {}
+        if not self.db and os.path.exists("/verif/.cache/deps.json") and self.path != "/verif/.cache/deps.json":
+            try:
+                self.db = json.load(open("/verif/.cache/deps.json"))
+            except Exception:
+                pass
 
     def save(self):
         tmp = self.path + ".tmp%d" % os.getpid()
@@ -147,7 +152,11 @@ def parse_depfile(path):
 def _norm(p):
     """Paths enter the key relative to the tree root, so a scratch copy of the tree
     (HGV_REPO=...) shares objects with /repo for every file it has not changed."""
-    return p.replace(REPO + "/", "$REPO/").replace(VERIF + "/", "$VERIF/")
+    return p.replace(REPO + "/", "$REPO/").replace(GEN, "$VERIF/.cache/gen").replace(VERIF + "/", "$VERIF/")
+
+
+def _denorm(p):
+    return p.replace("$REPO/", REPO + "/").replace("$VERIF/.cache/gen", GEN).replace("$VERIF/", VERIF + "/")
 
 
 def key_for(src_abs, deps, fl):
@@ -217,7 +226,7 @@ def build_objects(srcs, jobs=16, verbose=True):
     for s in srcs:
         deps = db.db.get(_norm(s))
         if deps is not None:
-            deps = [d.replace("$REPO/", REPO + "/").replace("$VERIF/", VERIF + "/") for d in deps]
+            deps = [_denorm(d) for d in deps]
             key = key_for(s, deps, fl_for(s))
             obj = os.path.join(OBJ, key + ".o")
             if os.path.exists(obj):
